@@ -15,6 +15,7 @@
 import PvModel.Proofs.FDLocal
 import PvModel.Proofs.FD
 import PvModel.Model.Goals
+import PvModel.Proofs.FDExact
 namespace Pv
 open Term State
 
@@ -77,6 +78,40 @@ theorem C16_singleton_binds (st : State) (x : Nat) (d : FD) (hd : FD.WF d) :
   refine ⟨fun n h => ⟨by simp only [resolveStorable, h], ?_⟩, fun h => by simp only [resolveStorable, h]⟩
   exact ((FD.singletonValue_spec d hd n).1 h n).2 rfl
 
+/-! ### the global theorems (Proofs/FDGlobal, FDTop, FDExact): through the re-entrant propagation loop -/
+
+/-- SOUNDNESS OF THE WHOLE MACHINE, every posting order, operand aliasing, domain sign and hash-iteration
+    order: whatever valuation the state reached after posting a conjunction of `infd` / `ltefd` / `plusfd` /
+    `minusfd` / `timesfd` / `diseqfd` / `==` / `!=` / CLP(Z) atoms still describes, it satisfies EVERY posted
+    atom — each constrained variable is an integer of its domain and every constraint holds.
+    (Fragment: all kinds but `distinctfd`; `FAtom.OK`.) -/
+theorem C16_state_sound {ord : Order} (ho : OrderOK ord) (n : Nat) (as : List FAtom) (hok : ∀ a ∈ as, a.OK)
+    (st' : State) (h : postAllF ord (State.empty n) as = .ok st') (γ : Subst) (hγ : Sem NoI γ st') :
+    ∀ a ∈ as, a.Sat γ := (fd_exact_ok ho n as hok st' h γ).1 hγ
+
+/-- … in particular an ANSWER state with nothing pending (every constraint discharged, every domain turned
+    into a binding — what labelling leaves behind) satisfies every posted atom under its own substitution:
+    the integers it reports are a solution. -/
+theorem C16_answer_sound {ord : Order} (ho : OrderOK ord) (n : Nat) (as : List FAtom) (hok : ∀ a ∈ as, a.OK)
+    (st' : State) (h : postAllF ord (State.empty n) as = .ok st') (hs : st'.store = []) (hd : st'.dstore = []) :
+    ∀ a ∈ as, a.Sat st'.σ := fd_closed ho n as hok st' h hs hd
+
+/-- one `c.run` of ANY propagator (all kinds but distinctfd), at any re-run depth, over any nested
+    `run_constraints` that keeps the solution set: the resulting state describes exactly the valuations of
+    the state it started from that satisfy the constraint (`Ref`), and a failure refutes it -/
+theorem C16_run_exact {rc : State → Res State} (hrc : RcOK rc) (hrs : RcSem rc) {ord : Order} (ho : OrderOK ord)
+    (k i : Nat) (c : Cst) (st : State) (I : Nat → Prop) (hI : IOK I st) (w : WFS st) (f : Fr i st)
+    (hd : c.isDiseq = false) (hnd : c.isDistinct = false) :
+    Ref I (fun γ => CstSem γ c) st (runCst rc ord k i c st) :=
+  runCst_selfSem hrc hrs ho k I i c st hI w f hd hnd
+
+/-- `State::run_constraints` at every nesting depth keeps the described valuations exactly; a failure means
+    the state described none -/
+theorem C16_run_constraints_exact {ord : Order} (ho : OrderOK ord) (n : Nat) (st : State) (w : WFS st) (hi : Inv st) :
+    Ref NoI (fun _ => True) st (runConstraintsF ord n st) :=
+  runConstraintsF_sem ho n NoI st (iok_noI st) w hi
+
+
 section Examples
 /-- D11 witness (`x in 1..=3, plusfd(x,x,x)` has no answer), D12 witness (`x == 1, y == 1, distinctfd([x,y])`)
     and a satisfiable program, decided by the model's state operations -/
@@ -94,6 +129,19 @@ example : isFail (((unify o (State.empty 2) x (num 1)).bind fun st => unify o st
     postCst o st (.distinctfd (.cons x (.cons y .nil)))) = true := by decide
 example : isOk (((domFd o (State.empty 2) x (.interval 0 2)).bind fun st => domFd o st y (.interval 0 2)).bind fun st =>
     postCst o st (.ltefd x y)) = true := by decide
+/-- non-vacuity of the global theorems: a program whose propagation re-enters `run_constraints`
+    (x + y = z with z <= 2 narrows everything to singletons) meets `FAtom.OK`, succeeds, and ends with
+    NOTHING pending (the hypotheses of `C16_answer_sound`) and the solution x = 1, y = 1, z = 2 -/
+private def prog16 : List FAtom :=
+  [.dom (.var 0) (.interval 1 2), .dom (.var 1) (.interval 1 2), .dom (.var 2) (.interval 0 9),
+   .cst (.plusfd (.var 0) (.var 1) (.var 2)), .cst (.ltefd (.var 2) (num 2))]
+example : ∀ a ∈ prog16, a.OK := by
+  intro a ha
+  simp only [prog16, List.mem_cons, List.not_mem_nil, or_false] at ha
+  rcases ha with rfl | rfl | rfl | rfl | rfl <;> simp [FAtom.OK, FD.WF, Cst.isDistinct]
+example : (match postAllF Order.default (State.empty 3) prog16 with
+    | .ok st => st.store.isEmpty && st.dstore.isEmpty && (st.σ 0 == num 1) && (st.σ 1 == num 1) && (st.σ 2 == num 2)
+    | _ => false) = true := by decide
 end Examples
 
 end Pv
